@@ -14,6 +14,8 @@ Blocks (case kinds)
   spatial   filter_spatial on every non-empty cell subset of a 3x3 lattice and every poly-mask of the full lattice
   load      csep.load_catalog(path, apply_filters=True, filters=..., region=...) through a write_ascii file
   instants  datetime statement == origin_time statement for every millisecond instant of complete seconds
+  large     catalogs of 1000 / 10001 / 30000 (thorough 100001) events in sorted, reversed and shuffled time order x 28 statements / lists
+  spell     every spelling float()/int() accepts for the same threshold (exponent notation, explicit sign, bare point)
   scenario  one explicit (events, statements, variant, in_place) execution: the replay form of every failure
 """
 import datetime
@@ -846,6 +848,15 @@ THOROUGH_SECONDS = [0, -1000, _ms(1906, 4, 18, 13, 12, 21), _ms(2038, 1, 19, 3, 
 
 # ----------------------------------------------------------------------------- enumeration
 def cases(tier, seed):
+    yield from space.with_time_zones(_cases(tier, seed), 12)
+
+
+def _cases(tier, seed):
+    for n in (1000, 10001, 30000) + ((100001,) if tier == 'thorough' else ()):
+        for order in ('shuffled', 'reversed', 'sorted'):
+            yield dict(kind='large', n=n, order=order)
+    for attr in SPELLINGS:
+        yield dict(kind='spell', attrs=[attr])
     quick = (tier == 'quick')
     # A: single statements on every catalog, shortest catalogs first
     for n in range(0, 4):
@@ -894,10 +905,95 @@ def cases(tier, seed):
         yield dict(kind='load', cats=[FULL], lists='pairs', firsts=[f])
 
 
+def large_events(n, order):
+    ev = []
+    for i in range(n):
+        k = {'sorted': i, 'reversed': n - 1 - i, 'shuffled': (i * 7919) % n}[order]      # 7919 is prime: a permutation for n not a multiple
+        ev.append(('L%d' % i, T0 + 1000 * k, 30.0 + (i % 100) / 10, -120.0 + (i % 70) / 10, float(i % 30), 4.0 + (i % 40) / 10))
+    return ev
+
+
+def large_statements(n):
+    a, b = T0 + 1000 * (n // 3), T0 + 1000 * (2 * n // 3)
+    singles = [[f'origin_time {op} {v}'] for op in OPS for v in (a, b)]
+    singles += [[f'datetime {op} {fmt_dt(a)}'] for op in OPS]
+    singles += [['magnitude >= 5.0'], ['depth < 10.0'], ['latitude <= 35.0']]
+    lists = [[f'origin_time >= {a}', f'origin_time < {b}'], [f'origin_time < {b}', f'origin_time >= {a}'],
+             ['magnitude >= 7.5', f'datetime > {fmt_dt(a)}'], [f'datetime > {fmt_dt(a)}', 'magnitude >= 7.5'],
+             ['depth < 3.0', 'magnitude >= 7.0', f'origin_time <= {b}'], [f'origin_time <= {b}', 'magnitude >= 7.0', 'depth < 3.0']]
+    return singles + lists
+
+
+def run_large(ctx, case):
+    """Catalogs of thousands of events in sorted, reversed and shuffled time order; every time statement form, single and in lists
+    of both orders. Judged as bytes against the reference subset (dedicated judge: counts only in the message)."""
+    from csep.core.catalogs import CSEPCatalog
+    n, order = case['n'], case['order']
+    events = large_events(n, order)
+    assert n % 7919 != 0 and len({e[1] for e in events}) == n
+    base = CSEPCatalog(data=list(events))
+    arr = base.catalog.copy()
+    sz = arr.dtype.itemsize
+    raw = arr.tobytes()
+    for stmts in large_statements(n):
+        for in_place in (False, True):
+            keep = ref_filter(events, stmts)
+            cat = CSEPCatalog(data=arr.copy())
+            ctx.calls += 1
+            form = 'str' if len(stmts) == 1 else 'list'
+            site = site_of(form)
+            cls = ('datetime' if any(x.startswith('datetime') for x in stmts) else 'list' if form == 'list' else 'op:' + stmts[0].split(' ')[1]) + ',many-events'
+            try:
+                res = cat.filter(stmts[0] if form == 'str' else list(stmts), in_place=in_place)
+            except Exception as e:
+                ctx.fail(f'{site}|{type(e).__name__}|{cls}', f'{type(e).__name__}: {e} n={n} order={order} statements={stmts}', dict(case))
+                continue
+            ctx.evals += 1
+            ctx.states += 1
+            ctx.nontrivial += 1 if 0 < len(keep) < n else 0
+            ob = res.catalog.tobytes()
+            ctx.h.update(hashlib.sha1(ob).digest())
+            exp = b''.join(raw[i * sz:(i + 1) * sz] for i in keep)
+            if ob != exp or res.get_number_of_events() != len(keep):
+                got = {ob[k * sz:(k + 1) * sz] for k in range(len(ob) // sz)}
+                want = {raw[i * sz:(i + 1) * sz] for i in keep}
+                kind = 'order-changed' if got == want and len(ob) == len(exp) else 'wrong-events'
+                ctx.fail(f'{site}|{kind}|{cls}', f'{n} events in {order} time order, statements {stmts} in_place={in_place}: kept '
+                         f'{len(ob) // sz} events, reference keeps {len(keep)}; {len(want - got)} missing, {len(got - want)} extra', dict(case))
+            if not in_place and cat.catalog.tobytes() != raw:
+                ctx.fail('CSEPCatalog.filter|source-mutated|in_place=False', f'n={n} order={order} statements={stmts}', dict(case))
+    return dict(case)
+
+
+SPELL_EVENTS = [('s0', 1270000000000 - 1, 35.0, -120.0, 5e-06, 5.0), ('s1', 1270000000000, -35.0, 120.0, 1e-05, 0.5),
+                ('s2', 1270000000000 + 1, 3.5, -12.0, 2e-05, 50.0), ('s3', 1000, 0.0, 0.0, 1.0, 5.5), ('s4', 2 * 10 ** 12, 89.0, 179.0, 10.0, 9.0)]
+SPELLINGS = {'origin_time': ['1.27e12', '1.27e+12', '1270000000000.0', '1.27E12', '+1270000000000', '1e3', '2e12'],
+             'depth': ['1e-05', '1E-5', '0.00001', '1.0e-05', '2e-05', '5e-06', '.00001', '1e1', '1e0'],
+             'magnitude': ['5e0', '.5e1', '5.', '+5.0', '5e-1', '0.5', '5e1', '50'],
+             'latitude': ['-3.5e1', '-35', '3.5e0', '+35.0', '35.', '0e0', '-0.0'],
+             'longitude': ['-1.2e2', '1.2e+2', '-12e0', '-120', '120.']}
+
+
+def run_spell(ctx, case):
+    """Threshold spellings: every way float()/int() reads the same number (exponent notation, explicit sign, bare point)."""
+    for attr in case['attrs']:
+        for text in SPELLINGS[attr]:
+            for op in OPS:
+                stmt = f'{attr} {op} {text}'
+                for variant in ('str', 'list'):
+                    keep = run_scenario(ctx, SPELL_EVENTS, [stmt], variant, False)
+                    note_case(ctx, get_src(SPELL_EVENTS), [stmt], keep)
+    return dict(case)
+
+
 def run_case(case):
     ctx = Ctx()
     k = case['kind']
-    if k == 'single':
+    if k == 'large':
+        sample = run_large(ctx, case)
+    elif k == 'spell':
+        sample = run_spell(ctx, case)
+    elif k == 'single':
         sample = run_single(ctx, case)
     elif k == 'lists':
         sample = run_lists(ctx, case)
